@@ -321,6 +321,9 @@ func Main(t *testing.T, h Harness) {
 		if time.Since(t0) > wall {
 			break
 		}
+		if out != "" {
+			os.WriteFile(out+".seed", []byte(strconv.FormatInt(s, 10)), 0o644)
+		}
 		r := h.runOnce(t, s, tier, nil)
 		res.Runs++
 		if d := os.Getenv("ZSIM_DUMP"); d != "" {
@@ -433,7 +436,14 @@ func (h *Harness) replay(t *testing.T, path string) {
 		os.Exit(2)
 	}
 	tp := [3][]int{rp.Ops, rp.Sched, rp.Fault}
-	r := h.runOnce(t, rp.Seed, rp.Tier, &tp)
+	var r *Run
+	if rp.Class == "process-crash" {
+		// the run killed its process (a panic in a goroutine of the library): re-execute the seed itself
+		fmt.Printf("REPLAY-CRASH-SEED %d\n", rp.Seed)
+		r = h.runOnce(t, rp.Seed, rp.Tier, nil)
+	} else {
+		r = h.runOnce(t, rp.Seed, rp.Tier, &tp)
+	}
 	hash := strconv.FormatUint(r.Hash(), 16)
 	if os.Getenv("ZSIM_VERBOSE") != "" {
 		fmt.Println(strings.Join(r.log, "\n"))
